@@ -14,9 +14,13 @@ namespace Operon.Gates.Rx
 def StR (pre post : Str) (p : Option Nat) (s : Str) (p' : Option Nat) (s' : Str) : Prop :=
   s' = s ++ post ∧ (match p with | some c => p' = some c | none => p' = lastOr none pre)
 
-/-- continuations that accept corresponding positions -/
-def KRel (pre post : Str) (k k' : K) : Prop :=
-  ∀ p s p' s', StR pre post p s p' s' → k p s = true → k' p' s' = true
+
+/-- continuations that accept `R`-related positions -/
+def KRelG (R : Option Nat → Str → Option Nat → Str → Prop) (k k' : K) : Prop :=
+  ∀ p s p' s', R p s p' s' → k p s = true → k' p' s' = true
+
+/-- continuations that accept corresponding positions of `text` and `pre ++ text ++ post` -/
+abbrev KRel (pre post : Str) (k k' : K) : Prop := KRelG (StR pre post) k k'
 
 theorem wordAt_prev (ce : CharEnv) (pre post : Str) (hsep : Separated ce pre post)
     {p : Option Nat} {s : Str} {p' : Option Nat} {s' : Str} (h : StR pre post p s p' s') :
@@ -46,9 +50,13 @@ theorem stepChar_transfer (pre post : Str) (f : Nat → Bool) {p : Option Nat} {
     simp only [stepChar, List.cons_append, Bool.and_eq_true] at hm ⊢
     exact ⟨hm.1, hk (some c) r (some c) (r ++ post) ⟨rfl, rfl⟩ hm.2⟩
 
-theorem repLoop_transfer (pre post : Str) (step : Option Nat → Str → K → Bool)
-    (hstep : ∀ p s p' s' k k', StR pre post p s p' s' → KRel pre post k k' → step p s k = true → step p' s' k' = true) :
-    ∀ (f f' : Nat), f ≤ f' → ∀ (mn : Nat) (mx : Option Nat) p s p' s' k k', StR pre post p s p' s' → KRel pre post k k' →
+/-- the repetition loop on related positions, for any relation under which the rest of the text grows by a constant
+    (so "this iteration consumed something" is preserved) -/
+theorem repLoop_transfer_gen (R : Option Nat → Str → Option Nat → Str → Prop) (d : Nat)
+    (hlen : ∀ p s p' s', R p s p' s' → s'.length = s.length + d)
+    (step : Option Nat → Str → K → Bool)
+    (hstep : ∀ p s p' s' k k', R p s p' s' → KRelG R k k' → step p s k = true → step p' s' k' = true) :
+    ∀ (f f' : Nat), f ≤ f' → ∀ (mn : Nat) (mx : Option Nat) p s p' s' k k', R p s p' s' → KRelG R k k' →
       repLoop step f mn mx p s k = true → repLoop step f' mn mx p' s' k' = true := by
   intro f
   induction f with
@@ -76,10 +84,8 @@ theorem repLoop_transfer (pre post : Str) (step : Option Nat → Str → K → B
           intro q t q' t' hqt hcont
           simp only [Bool.and_eq_true, decide_eq_true_eq] at hcont ⊢
           refine ⟨?_, ih g hfg 0 _ q t q' t' k k' hqt hk hcont.2⟩
-          have h1 := hqt.1
-          have h2 := hst.1
-          subst h1 h2
-          simp only [List.length_append]
+          have h1 := hlen _ _ _ _ hqt
+          have h2 := hlen _ _ _ _ hst
           omega
       · simp only [hmn, ↓reduceIte, Bool.and_eq_true] at hm ⊢
         refine ⟨hm.1, hstep p s p' s' _ _ hst ?_ hm.2⟩
@@ -116,10 +122,10 @@ theorem m_transfer (ce : CharEnv) (pre post : Str) (hsep : Separated ce pre post
     intro haf p s p' s' k k' hst hk hm
     simp only [Re.anchorFree] at haf
     simp only [Re.m] at hm ⊢
-    refine repLoop_transfer pre post (r.m ce) (ih haf) _ _ ?_ mn mx p s p' s' k k' hst hk hm
-    have h1 := hst.1
-    subst h1
-    simp only [List.length_append]
+    have hlen : ∀ p s p' s', StR pre post p s p' s' → s'.length = s.length + post.length := by
+      intro p s p' s' h; rw [h.1, List.length_append]
+    refine repLoop_transfer_gen (StR pre post) post.length hlen (r.m ce) (ih haf) _ _ ?_ mn mx p s p' s' k k' hst hk hm
+    have := hlen _ _ _ _ hst
     omega
   | «at» a =>
     intro haf p s p' s' k k' hst hk hm
@@ -184,5 +190,159 @@ theorem search_embedding_stable (ce : CharEnv) (r : Re) (haf : r.anchorFree = tr
   rw [List.append_assoc]
   apply searchFrom_prefix
   exact searchFrom_transfer ce pre post hsep r haf text none (lastOr none pre) (text ++ post) ⟨rfl, rfl⟩ h
+
+/-! ### case changes
+
+`CaseEqv ce a b` (Model/Regex.lean): `re`'s tables cannot tell the code points `a` and `b` apart.  Texts related code
+point by code point give the same positions, so EVERY expression (anchors included) that matches one matches the
+other. -/
+
+/-- positions of two texts that are `CaseEqv` code point by code point -/
+def CvR (ce : CharEnv) (p : Option Nat) (s : Str) (p' : Option Nat) (s' : Str) : Prop :=
+  CaseVar ce s s' ∧
+  (match p, p' with | none, none => True | some a, some b => CaseEqv ce a b | _, _ => False)
+
+theorem caseVar_length (ce : CharEnv) {s t : Str} (h : CaseVar ce s t) : t.length = s.length := by
+  induction h with
+  | nil => rfl
+  | cons _ _ ih => simp [ih]
+
+theorem cvr_len (ce : CharEnv) : ∀ p s p' s', CvR ce p s p' s' → s'.length = s.length + 0 := by
+  intro p s p' s' h
+  simpa using caseVar_length ce h.1
+
+theorem stepChar_cv (ce : CharEnv) (f : Nat → Bool) (hf : ∀ a b, CaseEqv ce a b → f a = f b)
+    {p : Option Nat} {s : Str} {p' : Option Nat} {s' : Str} {k k' : K}
+    (h : CvR ce p s p' s') (hk : KRelG (CvR ce) k k') (hm : stepChar f s k = true) : stepChar f s' k' = true := by
+  obtain ⟨hs, -⟩ := h
+  cases hs with
+  | nil => simp [stepChar] at hm
+  | @cons a b t t' hab htt =>
+    simp only [stepChar, Bool.and_eq_true] at hm ⊢
+    exact ⟨by rw [← hf a b hab]; exact hm.1, hk (some a) t (some b) t' ⟨htt, hab⟩ hm.2⟩
+
+theorem wordAt_cv_prev (ce : CharEnv) {p : Option Nat} {s : Str} {p' : Option Nat} {s' : Str} (h : CvR ce p s p' s') :
+    wordAt ce p' = wordAt ce p := by
+  obtain ⟨-, hp⟩ := h
+  cases p <;> cases p' <;> simp only at hp
+  · rfl
+  · exact hp.2.2.1.symm
+
+theorem wordAt_cv_next (ce : CharEnv) {p : Option Nat} {s : Str} {p' : Option Nat} {s' : Str} (h : CvR ce p s p' s') :
+    wordAt ce s'.head? = wordAt ce s.head? := by
+  obtain ⟨hs, -⟩ := h
+  cases hs with
+  | nil => rfl
+  | cons hab _ => exact hab.2.2.1.symm
+
+theorem setItem_cv (ce : CharEnv) (i : SetItem) (a b : Nat) (h : CaseEqv ce a b) : i.test ce a = i.test ce b := by
+  obtain ⟨hd, hsp, hw, hceq, hr, -⟩ := h
+  cases i with
+  | lit x => exact hceq x
+  | range lo hi => exact hr lo hi
+  | cat k neg => cases k <;> simp [SetItem.test, Cat.test, hd, hsp, hw]
+
+theorem items_any_cv (ce : CharEnv) (a b : Nat) (h : CaseEqv ce a b) :
+    ∀ items : List SetItem, (items.any fun i => i.test ce a) = (items.any fun i => i.test ce b) := by
+  intro items
+  induction items with
+  | nil => rfl
+  | cons i rest ih => simp only [List.any_cons, ih, setItem_cv ce i a b h]
+
+theorem at_cv (ce : CharEnv) (a : At) {p : Option Nat} {s : Str} {p' : Option Nat} {s' : Str} (h : CvR ce p s p' s') :
+    a.test ce p' s' = a.test ce p s := by
+  cases a with
+  | wordB => simp only [At.test]; rw [wordAt_cv_prev ce h, wordAt_cv_next ce h]
+  | notWordB => simp only [At.test]; rw [wordAt_cv_prev ce h, wordAt_cv_next ce h]
+  | bos =>
+    obtain ⟨-, hp⟩ := h
+    cases p <;> cases p' <;> simp_all [At.test]
+  | eos =>
+    obtain ⟨hs, -⟩ := h
+    cases hs with
+    | nil => rfl
+    | @cons a b t t' hab htt =>
+      cases htt with
+      | nil =>
+        have h10 := hab.2.2.2.2.2
+        simp [At.test]
+        exact h10.symm
+      | cons _ _ => simp [At.test]
+  | eosStrict =>
+    obtain ⟨hs, -⟩ := h
+    cases hs <;> simp [At.test]
+
+/-- the matcher on texts that differ by case only -/
+theorem m_cv (ce : CharEnv) :
+    ∀ (r : Re) p s p' s' k k', CvR ce p s p' s' → KRelG (CvR ce) k k' →
+      r.m ce p s k = true → r.m ce p' s' k' = true := by
+  intro r
+  induction r with
+  | eps => intro p s p' s' k k' hst hk hm; exact hk p s p' s' hst hm
+  | lit x =>
+    intro p s p' s' k k' hst hk hm
+    exact stepChar_cv ce _ (fun a b h => h.2.2.2.1 x) hst hk hm
+  | notLit x =>
+    intro p s p' s' k k' hst hk hm
+    exact stepChar_cv ce _ (fun a b h => by simp only [h.2.2.2.1 x]) hst hk hm
+  | any =>
+    intro p s p' s' k k' hst hk hm
+    refine stepChar_cv ce _ (fun a b h => ?_) hst hk hm
+    have h10 := h.2.2.2.2.2
+    simp only [bne, h10]
+  | set neg items =>
+    intro p s p' s' k k' hst hk hm
+    refine stepChar_cv ce _ (fun a b h => ?_) hst hk hm
+    rw [items_any_cv ce a b h items]
+  | seq a b iha ihb =>
+    intro p s p' s' k k' hst hk hm
+    simp only [Re.m] at hm ⊢
+    refine iha p s p' s' _ _ hst ?_ hm
+    intro q t q' t' hqt hb
+    exact ihb q t q' t' k k' hqt hk hb
+  | alt a b iha ihb =>
+    intro p s p' s' k k' hst hk hm
+    simp only [Re.m, Bool.or_eq_true] at hm ⊢
+    rcases hm with h | h
+    · exact Or.inl (iha p s p' s' k k' hst hk h)
+    · exact Or.inr (ihb p s p' s' k k' hst hk h)
+  | rep mn mx r ih =>
+    intro p s p' s' k k' hst hk hm
+    simp only [Re.m] at hm ⊢
+    refine repLoop_transfer_gen (CvR ce) 0 (cvr_len ce) (r.m ce) ih _ _ ?_ mn mx p s p' s' k k' hst hk hm
+    have := cvr_len ce _ _ _ _ hst
+    omega
+  | «at» a =>
+    intro p s p' s' k k' hst hk hm
+    simp only [Re.m, Bool.and_eq_true] at hm ⊢
+    rw [at_cv ce a hst]
+    exact ⟨hm.1, hk p s p' s' hst hm.2⟩
+  | unsupported w => intro p s p' s' k k' _ _ hm; simp [Re.m] at hm
+
+theorem searchFrom_cv (ce : CharEnv) (r : Re) :
+    ∀ (s : Str) p p' s', CvR ce p s p' s' → searchFrom ce r p s = true → searchFrom ce r p' s' = true := by
+  have hk : KRelG (CvR ce) (fun _ _ => true) (fun _ _ => true) := fun _ _ _ _ _ _ => rfl
+  intro s
+  induction s with
+  | nil =>
+    intro p p' s' hst h
+    simp only [searchFrom] at h
+    exact searchFrom_of_m ce r p' s' (m_cv ce r p [] p' s' _ _ hst hk h)
+  | cons c t ih =>
+    intro p p' s' hst h
+    simp only [searchFrom, Bool.or_eq_true] at h
+    rcases h with h | h
+    · exact searchFrom_of_m ce r p' s' (m_cv ce r p (c :: t) p' s' _ _ hst hk h)
+    · obtain ⟨hs, -⟩ := hst
+      cases hs with
+      | @cons a b t2 t' hab htt =>
+        simp only [searchFrom, Bool.or_eq_true]
+        exact Or.inr (ih (some c) (some b) t' ⟨htt, hab⟩ h)
+
+/-- **Case stability of a regex**: texts that `re`'s tables cannot tell apart code point by code point are matched by
+    the same expressions — every expression, anchors included. -/
+theorem search_case_stable (ce : CharEnv) (r : Re) (text text' : Str)
+    (hcv : CaseVar ce text text') (h : search ce r text = true) : search ce r text' = true :=
+  searchFrom_cv ce r text none none text' ⟨hcv, trivial⟩ h
 
 end Operon.Gates.Rx
